@@ -247,6 +247,32 @@ def probes():
         o, b = rt(res, 'k18')
         d = diff(b['lexicons'][0].get('frames', []), o['lexicons'][0].get('frames', []))
         out.append(('K18', d))
+        # K9: a relation declared twice (same type, target and metadata) is stored twice and exported once
+        rel = {'relType': 'hypernym', 'target': 'l-b', 'meta': None}
+        res = {'lmf_version': '1.1', 'lexicons': [dict(base, synsets=[
+            {'id': 'l-a', 'ili': '', 'partOfSpeech': 'n', 'meta': None, 'relations': [dict(rel), dict(rel)]},
+            {'id': 'l-b', 'ili': '', 'partOfSpeech': 'n', 'meta': None}])]}
+        o, b = rt(res, 'k9')
+        d = diff(b['lexicons'][0]['synsets'], o['lexicons'][0]['synsets'])
+        out.append(('K9', d))
+        # K24: text kept verbatim under xml:space="preserve"
+        res = {'lmf_version': '1.3', 'lexicons': [dict(base, synsets=[
+            {'id': 'l-a', 'ili': '', 'partOfSpeech': 'n', 'meta': None,
+             'definitions': [{'text': 'PLACEHOLDER', 'meta': None}]}])]}
+        wn.config.data_directory = os.path.join(work, 'k24')
+        os.makedirs(wn.config.data_directory, exist_ok=True)
+        src = os.path.join(work, 'k24.xml')
+        lmf.dump(res, src)
+        text = open(src, encoding='utf-8').read().replace('>PLACEHOLDER<', ' xml:space="preserve">line one\n   line two<')
+        open(src, 'w', encoding='utf-8').write(text)
+        original = lmf.load(src, progress_handler=None)
+        wn.add(src, progress_handler=None)
+        exp = os.path.join(work, 'k24-exp.xml')
+        wn.export(wn.lexicons(), exp, version='1.3')
+        back = lmf.load(exp, progress_handler=None)
+        a = [x['text'] for x in original['lexicons'][0]['synsets'][0]['definitions']]
+        c = [x['text'] for x in back['lexicons'][0]['synsets'][0]['definitions']]
+        out.append(('K24', [f'definition {a} exported and re-read as {c}'] if a != c else []))
     finally:
         wn.config.data_directory = old
         shutil.rmtree(work, ignore_errors=True)
